@@ -209,10 +209,46 @@ func (e *Env) minimiseAndReport(prop, bin, variant string, r *kernel.Result, v k
 		}
 		return false, nil
 	}
-	// the unminimised tape must reproduce first
-	ok, canon := trial(rf.Tape)
+	// The unminimised tape must reproduce first: alone in a fresh process,
+	// or - when the violation depends on what the process did before (a warm
+	// pool or cache, a lazily built table) - after the runs that preceded it
+	// in its job.  A few attempts each: a changed library may contain
+	// nondeterminism of its own (sync.Pool and the garbage collector).
+	var ok bool
+	var canon Tape
+	prefixes := []int{0}
+	if r.Idx > r.JobFrom {
+		prefixes = append(prefixes, r.Idx-r.JobFrom)
+	}
+attempts:
+	for _, pf := range prefixes {
+		rf.Prefix = pf
+		for try := 0; try < 3; try++ {
+			if ok, canon = trial(rf.Tape); ok {
+				break attempts
+			}
+		}
+	}
 	if !ok {
-		return "", v, harnessErr("violation %s/%s of run %s#%d did not reproduce when its own tape was replayed in a fresh process (harness nondeterminism)", v.Property, v.Class, r.World, r.Idx)
+		// Observed during the batch, not reproducible from its own tape.  The
+		// determinism self-test (./check --selftest) shows that on the
+		// unchanged tree a run is a pure function of its tape, so this points
+		// at nondeterminism inside the library under test; the observation is
+		// reported with what the batch recorded, marked as not reproduced.
+		f := false
+		rf.Prefix, rf.Reproduced = 0, &f
+		rf.Note = fmt.Sprintf("observed in run %s#%d of the batch (job from %d) but not reproduced in %d fresh-process replays (alone and after the job's earlier runs): the behaviour depends on something outside the tape (e.g. sync.Pool / garbage-collector timing inside the library)", r.World, r.Idx, r.JobFrom, 3*len(prefixes))
+		dir := filepath.Join(e.VerifDir, "replays")
+		_ = os.MkdirAll(dir, 0o755)
+		path := filepath.Join(dir, fmt.Sprintf("%s-seed%d-%s-%d.json", prop, e.Seed, r.World, r.Idx))
+		if err := rf.Save(path); err != nil {
+			return "", v, harnessErr("write replay: %v", err)
+		}
+		Logf("violation %s/%s of run %s#%d did not reproduce from its own tape; reported as observed", v.Property, v.Class, r.World, r.Idx)
+		return path, v, nil
+	}
+	if rf.Prefix > 0 {
+		Logf("violation %s/%s of run %s#%d reproduces only after the %d runs that preceded it in its process", v.Property, v.Class, r.World, r.Idx, rf.Prefix)
 	}
 	small, trials, acc := Shrink(canon, trial, budget, e.Workers)
 	Logf("minimised: %d trials, %d accepted", trials, acc)
@@ -223,7 +259,7 @@ func (e *Env) minimiseAndReport(prop, bin, variant string, r *kernel.Result, v k
 			if x.Property == v.Property && x.Class == v.Class {
 				n0, _ := tapeSize(canon)
 				n1, _ := tapeSize(small)
-				final = &replay.File{Property: prop, World: r.World, Prop: r.Prop, Variant: variant, VerifSeed: r.VerifSeed, Idx: r.Idx, Minimised: true, Violation: x, Cfg: res.Cfg, Tape: res.Tape, Trace: res.Trace,
+				final = &replay.File{Property: prop, World: r.World, Prop: r.Prop, Variant: variant, VerifSeed: r.VerifSeed, Idx: r.Idx, Prefix: rf.Prefix, Minimised: true, Violation: x, Cfg: res.Cfg, Tape: res.Tape, Trace: res.Trace,
 					Note: fmt.Sprintf("minimised from %d to %d recorded choices in %d trials; replay with: ./check --replay <this file>", n0, n1, trials)}
 				v = x
 			}
